@@ -55,6 +55,34 @@ def gopherjs_bin():
     return _gopherjs
 
 
+_gopherjs_keepall = None
+KEEPALL_ANCHOR = 'dceSelection := sel.AliveDecls()'
+
+
+def gopherjs_keepall_bin():
+    """A variant of the compiler in which dead-code elimination keeps every declaration: /repo's current
+    compiler/compiler.go with one statement added after the DCE selection, injected with `go build -overlay`
+    (nothing is written to /repo).  Returns None if the anchor statement is not found in the current source."""
+    global _gopherjs_keepall
+    if _gopherjs_keepall is None:
+        src_path = os.path.join(REPO, 'compiler', 'compiler.go')
+        src = open(src_path).read()
+        if src.count(KEEPALL_ANCHOR) != 1:
+            _gopherjs_keepall = False
+            return None
+        patched = src.replace(KEEPALL_ANCHOR, KEEPALL_ANCHOR + "\n\tfor _, verifPkg := range pkgs { // verif: keep every declaration alive\n\t\tfor _, verifDecl := range verifPkg.Declarations {\n\t\t\tdceSelection[verifDecl] = struct{}{}\n\t\t}\n\t}")
+        d = os.path.join(scratch(), 'keepall')
+        os.makedirs(d, exist_ok=True)
+        with open(os.path.join(d, 'compiler.go'), 'w') as f:
+            f.write(patched)
+        with open(os.path.join(d, 'overlay.json'), 'w') as f:
+            json.dump({'Replace': {src_path: os.path.join(d, 'compiler.go')}}, f)
+        out = os.path.join(scratch(), 'gopherjs-keepall')
+        run(['go', 'build', '-overlay', os.path.join(d, 'overlay.json'), '-o', out, '.'], cwd=REPO)
+        _gopherjs_keepall = out
+    return _gopherjs_keepall or None
+
+
 def repo_state():
     """Identify the tree being checked (commit + dirty hash) for the evidence file."""
     try:
@@ -85,9 +113,14 @@ def write_pkg(dirpath, files, module='verifprog'):
                 pass
 
 
-def compile_js(dirpath, minify=False, tags=None, out='out.js', timeout=300):
+def compile_js(dirpath, minify=False, tags=None, out='out.js', timeout=300, keep_all=False):
     """Compile the package in dirpath with the real compiler.  Returns (ok, path-or-error)."""
-    cmd = [gopherjs_bin(), 'build', '-o', out]
+    binary = gopherjs_bin()
+    if keep_all:
+        binary = gopherjs_keepall_bin()
+        if binary is None:
+            return False, 'keep-all variant unavailable: anchor %r not found in compiler/compiler.go' % KEEPALL_ANCHOR
+    cmd = [binary, 'build', '-o', out]
     if minify:
         cmd.append('-m')
     if tags:
